@@ -572,8 +572,11 @@ class Project(NamedItem):
         show_progress = n_samples > 1 and logger.getEffectiveLevel() <= logging.INFO
 
         if parallel:
-            fcn = functools.partial(_run_sampled_sim, proj=self, parset=parset, progset=progset, progset_instructions=progset_instructions, result_names=result_names, max_attempts=max_attempts)
-            results = parallel_progress(fcn, n_samples, show_progress=show_progress, num_workers=num_workers)
+            # Forked workers inherit the state of the global random number generator, so every sample gets its own seed drawn here
+            # (the samples are then independent for any number of workers, and still reproducible from the caller's ``np.random.seed()``)
+            seeds = [int(x) for x in np.random.randint(0, 2**32 - 1, size=n_samples, dtype=np.int64)]
+            fcn = functools.partial(_run_seeded_sampled_sim, proj=self, parset=parset, progset=progset, progset_instructions=progset_instructions, result_names=result_names, max_attempts=max_attempts)
+            results = parallel_progress(fcn, seeds, show_progress=show_progress, num_workers=num_workers)
         elif show_progress:
             # Print the progress bar if the logging level was INFO or lower
             # This means that the user can still set the logging level higher e.g. WARNING to suppress output from Atomica in general
@@ -721,6 +724,23 @@ class Project(NamedItem):
         self.__dict__ = d
         P = migrate(self)
         self.__dict__ = P.__dict__
+
+
+def _run_seeded_sampled_sim(seed: int, **kwargs):
+    """
+    Seed the global random number generator, then sample and run a simulation
+
+    Used by :meth:`Project.run_sampled_sims` on parallel workers, where every sample needs its own seed because the
+    workers all start from the same generator state.
+
+    :param seed: Seed for ``np.random.seed()``
+    :param kwargs: Arguments for :func:`_run_sampled_sim`
+    :return: The output of :func:`_run_sampled_sim`
+
+    """
+
+    np.random.seed(seed)
+    return _run_sampled_sim(**kwargs)
 
 
 def _run_sampled_sim(proj, parset, progset, progset_instructions: list, result_names: list, max_attempts: int = None):
